@@ -2,7 +2,8 @@
 EXTENDS Expire, Json, TLC
 VARIABLE hist
 MCInit == Init /\ hist = <<[a |-> "Init", b |-> b]>>
-MCNext == Next /\ hist' = Append(hist, [l |-> last', b |-> b', rc |-> rc', pass |-> pass', pending |-> Cardinality(ev'), dirty |-> dirty'])
+MCNext == Next /\ hist' = Append(hist, [l |-> last', b |-> b', rc |-> rc', pass |-> pass', pending |-> Len(ev'), dirty |-> dirty',
+                                         lo |-> [t \in T |-> EvLo(t)], hi |-> [t \in T |-> EvHi(t)]])
 SimSpec == MCInit /\ [][MCNext]_<<vars, hist>>
 Dump == (Len(hist) = 14) => PrintT("BEH " \o ToJson(hist))
 \* every schedule of at most 8 steps on which the code as shipped crashes (Dev = {"DivZero"})
